@@ -808,7 +808,11 @@ class TestSuite(tsdb.Database):
             fields = self.schema[name]
             if table._in_transaction:
                 data: tsdb.Records = []
-                if table._volatile_index >= table._persistent_count:
+                # a compressed file cannot be appended to, so it is
+                # rewritten (and stays compressed)
+                gzip = tsdb.get_path(self.path, name).suffix == '.gz'
+                if (table._volatile_index >= table._persistent_count
+                        and not gzip):
                     append = True
                     data = table[table._persistent_count:]
                 else:
@@ -820,6 +824,7 @@ class TestSuite(tsdb.Database):
                     data,
                     fields,
                     append=append,
+                    gzip=gzip,
                     encoding=self.encoding
                 )
             table._sync_with_file()
